@@ -880,3 +880,29 @@ fire("C05", "get_shell_grid rotates with the seed of the previous shell", "R9.sh
 fire("C06", "per-atom route ignores the configured switching order", "R7.partition-of-unity/becke.BeckeWeights.compute_atom_weight",
      ("sub", "becke.py", "        s_ab = 0.5 * (1 - BeckeWeights._switch_func(v_pp, order=self._order))\n        del v_pp\n        # convert nan to 1\n        s_ab[np.isnan(s_ab)] = 1\n        # product up A_B, A_C, A_D ... along rows\n        s_ab = np.prod(s_ab, axis=-1)\n        # calculate weight for each point in select\n        weights += s_ab[:, select]",
       "        s_ab = 0.5 * (1 - BeckeWeights._switch_func(v_pp))\n        del v_pp\n        # convert nan to 1\n        s_ab[np.isnan(s_ab)] = 1\n        # product up A_B, A_C, A_D ... along rows\n        s_ab = np.prod(s_ab, axis=-1)\n        # calculate weight for each point in select\n        weights += s_ab[:, select]"))
+
+# ------------------------------------------------------------------------------------------ helpers reached by inlining (round 12)
+_TRIM_OLD = "        rf_array = -self._R * np.log((x + 1) / 2) + self._rmin\n        if self.trim_inf:\n            rf_array = self._convert_inf(rf_array)\n        return rf_array\n"
+_TRIM_NEW = "        rf_array = -self._R * np.log((x + 1) / 2) + self._rmin\n        return _trim_helper(self, rf_array)\n"
+silent("C03", "trimming of MultiExp.transform moved into a module-level helper that tests the flag",
+       ("sub", "rtransform.py", _TRIM_OLD, _TRIM_NEW),
+       ("sub", "rtransform.py", "class MultiExpRTransform(BaseTransform):\n",
+        "def _trim_helper(tf, values):\n    if tf.trim_inf:\n        values = tf._convert_inf(values)\n    return values\n\n\nclass MultiExpRTransform(BaseTransform):\n"))
+fire("C03", "trimming helper discards the converted array", "R3.trim-honoured-by-transform",
+     ("sub", "rtransform.py", _TRIM_OLD, _TRIM_NEW),
+     ("sub", "rtransform.py", "class MultiExpRTransform(BaseTransform):\n",
+      "def _trim_helper(tf, values):\n    if tf.trim_inf:\n        tf._convert_inf(values)\n    return values\n\n\nclass MultiExpRTransform(BaseTransform):\n"))
+_SETB_OLD = ("class LinearInfiniteRTransform(BaseTransform):\n", "    def set_maximum_parameter_b(self, x):\n        r\"\"\"Sets up the parameter b from taken the maximum over some grid x.\"\"\"\n        if self.b is None:\n            self._b = np.max(x)\n            if np.abs(self.b) < 1e-16:\n                raise ValueError(\n                    f\"The parameter b {self.b} is taken from the maximum of the grid\"\n                    f\"and can't be zero.\"\n                )\n")
+silent("C19", "set-once scale of LinearInfinite fixed by a module-level helper under the None test",
+       ("sub", "rtransform.py", _SETB_OLD[1], "    def set_maximum_parameter_b(self, x):\n        r\"\"\"Sets up the parameter b from taken the maximum over some grid x.\"\"\"\n        _fix_b(self, x)\n"),
+       ("sub", "rtransform.py", _SETB_OLD[0], "def _fix_b(tf, x):\n    if tf.b is None:\n        tf._b = np.max(x)\n        if np.abs(tf.b) < 1e-16:\n            raise ValueError(\"The parameter b can't be zero.\")\n\n\n" + _SETB_OLD[0]))
+fire("C19", "module-level helper overwrites the scale on every call", "R3.transform-stateless",
+     ("sub", "rtransform.py", _SETB_OLD[1], "    def set_maximum_parameter_b(self, x):\n        r\"\"\"Sets up the parameter b from taken the maximum over some grid x.\"\"\"\n        _fix_b(self, x)\n"),
+     ("sub", "rtransform.py", _SETB_OLD[0], "def _fix_b(tf, x):\n    tf._b = np.max(x)\n    if np.abs(tf.b) < 1e-16:\n        raise ValueError(\"The parameter b can't be zero.\")\n\n\n" + _SETB_OLD[0]))
+_STR_OLD = "        strides = np.empty(self.ndim, dtype=int)\n        strides[-1] = 1\n        # Row-major, right to left: each stride equals the next stride times the next dimension size.\n        for i in range(self.ndim - 2, -1, -1):\n            strides[i] = strides[i + 1] * self.shape[i + 1]\n        return np.dot(indices, strides)\n"
+fire("C13", "strides moved into a private helper that multiplies by the wrong axis", "index-map-strides",
+     ("sub", "cubic.py", _STR_OLD,
+      "        return np.dot(indices, self._index_strides())\n\n    def _index_strides(self):\n        strides = np.empty(self.ndim, dtype=int)\n        strides[-1] = 1\n        for i in range(self.ndim - 2, -1, -1):\n            strides[i] = strides[i + 1] * self.shape[i]\n        return strides\n"))
+silent("C13", "strides moved into a private helper",
+       ("sub", "cubic.py", _STR_OLD,
+        "        return np.dot(indices, self._index_strides())\n\n    def _index_strides(self):\n        strides = np.empty(self.ndim, dtype=int)\n        strides[-1] = 1\n        for i in range(self.ndim - 2, -1, -1):\n            strides[i] = strides[i + 1] * self.shape[i + 1]\n        return strides\n"))
